@@ -109,7 +109,7 @@ def sym_int_var(name, lo, hi):
 
 class SFloat(Sym):
     """a binary64 value known as exact-value + error bound"""
-    __slots__ = ('aff', '_t', 'err', 'mag', 'note', 'nearest', 'zsafe', 'xrep')
+    __slots__ = ('aff', '_t', 'err', 'mag', 'note', 'nearest', 'zsafe', 'xrep', 'cf')
     _pytype = float
 
     @property
@@ -132,6 +132,7 @@ class SFloat(Sym):
         self.nearest = False       # True: the computed value is the double nearest to the exact value (integers are then exact)
         self.zsafe = False         # True: computed >= 0, and computed == 0 exactly when the exact value is 0
         self.xrep = False          # True: whenever the exact value is itself a double, the computed value equals it
+        self.cf = None             # concrete shadow: env {declared int var: value} -> the double CPython computes (None: unknown)
 
     def is_xrep(self):
         return self.err == 0 or self.nearest or self.xrep
@@ -150,6 +151,8 @@ class SFloat(Sym):
         if isinstance(n, SInt):
             aff = aff_of_int(n)
             s = cls(aff, None, 0)
+            if aff.all_int_vars():
+                s.cf = _cf_int(aff)
             if s.mag >= 2 ** 53:
                 s.err = s.mag * U
             lo, hi = aff.bounds()
@@ -164,6 +167,9 @@ class SFloat(Sym):
         x.zsafe = r >= 0 and (r != 0 or e == 0)
         if isinstance(c, float):
             x.note = ('const', c)          # the double itself (the affine form carries a short rational +- err)
+        if isinstance(c, (int, float)) and not isinstance(c, bool):
+            cv = float(c)
+            x.cf = lambda env, cv=cv: cv
         return x
 
     def exact(self):
@@ -204,6 +210,8 @@ class SFloat(Sym):
                 r.mag = max(abs(lo), abs(hi))
         r.err = a.err + b.err + U * (r.mag + a.err + b.err)
         r.zsafe = sign > 0 and a.zsafe and b.zsafe      # a sum of non-negative values is 0 iff all of them are
+        if a.cf is not None and b.cf is not None:
+            r.cf = (lambda env, f=a.cf, g=b.cf: f(env) + g(env)) if sign > 0 else (lambda env, f=a.cf, g=b.cf: f(env) - g(env))
         if sign > 0 and r.mag < 2 ** 52:
             # n + x with n a non-negative integer (exact) and x >= 0 exact-when-representable: if the exact sum e is a double,
             # n is a multiple of ulp(e) (ulp(e) <= 1 divides integers), so x = e - n is a multiple of ulp(e) below e, hence a
@@ -230,6 +238,8 @@ class SFloat(Sym):
     def __neg__(self):
         r = SFloat(self.aff.scale(-1) if self.aff is not None else None, None if self.aff is not None else -self.t, self.err, self.mag)
         r.nearest = self.nearest
+        if self.cf is not None:
+            r.cf = lambda env, f=self.cf: -f(env)
         return r
 
     def __pos__(self):
@@ -256,6 +266,8 @@ class SFloat(Sym):
         r.err = a.mag * b.err + b.mag * a.err + a.err * b.err
         r.err += U * (r.mag + r.err)
         r.zsafe = a.zsafe and b.zsafe and r.mag < 2 ** 500
+        if self.cf is not None and o.cf is not None:
+            r.cf = lambda env, f=self.cf, g=o.cf: f(env) * g(env)
         return r
 
     def __rmul__(self, o):
@@ -283,6 +295,8 @@ class SFloat(Sym):
         dmin = abs(d) - o.err
         r.err = self.err / dmin + self.mag * o.err / (abs(d) * dmin)
         r.err += U * (r.mag + r.err)
+        if self.cf is not None and o.cf is not None:
+            r.cf = lambda env, f=self.cf, g=o.cf: f(env) / g(env)
         return r
 
     def _div_sym(self, o):
@@ -305,6 +319,14 @@ class SFloat(Sym):
                         lo = lo2
         if lo is None or (lo <= o.err and hi >= -o.err):
             lo, hi = _opt_bounds(o.t)             # path-sensitive bounds from the solver (linear objective)
+        if (lo is None or (lo <= o.err and hi >= -o.err)) and o.aff is not None and len(o.aff.cs) == 1 and o.aff.all_int_vars():
+            # an affine function of ONE integer variable: its exact range under the path condition by bisection with
+            # plain satisfiability checks (the optimiser may time out on long path conditions)
+            (name, cv), = o.aff.cs.items()
+            vr = _var_range_under_pc(name)
+            if vr is not None:
+                ends = [o.aff.c0 + cv * vr[0], o.aff.c0 + cv * vr[1]]
+                lo, hi = min(ends), max(ends)
         if lo is None or (lo <= o.err and hi >= -o.err):
             # the divisor may be zero: fork on it
             if c.decide(o.t == 0) if o.err == 0 else False:
@@ -316,6 +338,8 @@ class SFloat(Sym):
         r.err += U * (r.mag + r.err)
         if self.aff is not None and self.aff.is_const() and self.err == 0 and lo is not None and lo > 0:
             r.note = ('quot', self.aff.c0, o)          # a constant over a positive symbolic divisor (see _cmp)
+        if self.cf is not None and o.cf is not None:
+            r.cf = lambda env, f=self.cf, g=o.cf: f(env) / g(env)
         return r
 
     def __rtruediv__(self, o):
@@ -468,8 +492,46 @@ class SFloat(Sym):
                     if flip:
                         fa, fb = fb, fa
                     return {'<': operator.lt, '<=': operator.le, '>': operator.gt, '>=': operator.ge, '==': operator.eq, '!=': operator.ne}[op](fa, fb)
+        pin = self._pin_zone(o, dt, err, op)
+        if pin is not None:
+            return pin
         c.notes.append(('float-compare-in-error-zone', op))
         return c.decide(c.fresh('fcmp', 'bool'))
+
+    def _pin_zone(self, o, dt, err, op):
+        """inside the zone, when the exact difference depends on ONE declared integer variable and only one value v0 of it
+        puts the difference within err of 0, the inputs of both sides are known: evaluate the two doubles as CPython does
+        (concrete shadow functions composed through the same operations) and compare them"""
+        import operator
+        if self.cf is None or o.cf is None or self.aff is None or o.aff is None:
+            return None
+        d = self.aff.add(o.aff, -1)
+        if len(d.cs) != 1 or not d.all_int_vars():
+            return None
+        c = ctx()
+        (name, cv), = d.cs.items()
+        # every variable either side reads must be this one
+        if set(self.aff.cs) - {name} or set(o.aff.cs) - {name}:
+            return None
+        lo_, hi_ = sorted([(-err - d.c0) / cv, (err - d.c0) / cv])
+        v_lo, v_hi = math.ceil(lo_), math.floor(hi_)
+        rng = c.var_ranges[name]
+        if rng[0] is not None:
+            v_lo = max(v_lo, math.ceil(rng[0]))
+        if rng[1] is not None:
+            v_hi = min(v_hi, math.floor(rng[1]))
+        if v_lo > v_hi:
+            c.assume(False)
+        if v_lo != v_hi:
+            return None
+        v0 = v_lo
+        c.assume(rng[2] == v0)
+        try:
+            fa, fb = self.cf({name: v0}), o.cf({name: v0})
+        except (ZeroDivisionError, OverflowError, KeyError):
+            return None
+        c.assumptions.add('comparison inside a float error zone decided by evaluating both sides in CPython at the single input value in the zone')
+        return {'<': operator.lt, '<=': operator.le, '>': operator.gt, '>=': operator.ge, '==': operator.eq, '!=': operator.ne}[op](fa, fb)
 
     def _cmp_quot(self, o, op):
         """q = fl(A/d) (A > 0 a constant double, d > 0 computed with |d - e| <= err_d) against a constant double K > 0, decided on
@@ -709,6 +771,59 @@ def _opt_bounds(t, senses=('min', 'max'), timeout=3000):
     lo, hi = out
     w = (abs(lo) + abs(hi)) * Fraction(1, 10 ** 12)
     return lo - w, hi + w
+
+
+def _var_range_under_pc(name, timeout=1500):
+    """(min, max) of a declared integer variable under the current path condition, exact, by bisection; None if a check is
+    undecided or the static range is unknown"""
+    c = ctx()
+    lo, hi, v = c.var_ranges[name]
+    if lo is None or hi is None:
+        return None
+    lo, hi = math.ceil(lo), math.floor(hi)
+    s = z3.Solver()
+    s.set('timeout', timeout)
+    s.add(*c.pc)
+    if s.check() != z3.sat:
+        return None
+    m = s.model().eval(v, model_completion=True)
+    if not z3.is_int_value(m):
+        return None
+    w = m.as_long()
+    a, b = lo, w                    # least feasible value in [lo, w]
+    while a < b:
+        mid = (a + b) // 2
+        r = s.check(v <= mid)
+        if r == z3.sat:
+            b = min(mid, s.model().eval(v, model_completion=True).as_long())
+        elif r == z3.unsat:
+            a = mid + 1
+        else:
+            return None
+    vmin = a
+    a, b = w, hi                    # greatest feasible value in [w, hi]
+    while a < b:
+        mid = (a + b + 1) // 2
+        r = s.check(v >= mid)
+        if r == z3.sat:
+            a = max(mid, s.model().eval(v, model_completion=True).as_long())
+        elif r == z3.unsat:
+            b = mid - 1
+        else:
+            return None
+    return vmin, a
+
+
+def _cf_int(aff):
+    """concrete shadow of float(n) for an integer affine form"""
+    c0, cs = aff.c0, dict(aff.cs)
+
+    def f(env):
+        v = c0 + sum(k * env[n] for n, k in cs.items())
+        if v.denominator != 1:
+            raise KeyError('non-integer')
+        return float(int(v))
+    return f
 
 
 def aff_of_int(n):
